@@ -121,9 +121,11 @@ def flow_box(d):
 class Walk:
   """one walk over the description: the model world, and (build=True) the real objects."""
 
-  def __init__(self, T, n, build_objects=False, nargs=0):
+  def __init__(self, T, n, build_objects=False, hook=None):
+    """`hook(hid)` is called right after device `hid` has been constructed (its parents do not exist yet)."""
     self.n = n
     self.build = build_objects
+    self.hook = hook
     self.cells = []          # [name, obj, snapshot, owner class]   (obj None when not building)
     self.udicts = []         # [isEq, hasJac] per user dict cell
     self.udict_objs = []     # live dict objects
@@ -266,6 +268,8 @@ class Walk:
       self.mats.append((hid, tuple(info['mat']), p.get('sustainment', '1')))
     self.live[hid] = obj
     self.desc[hid] = ('leaf', d, None)
+    if self.hook:
+      self.hook(self, hid)
     return info
 
   # -- recursion
@@ -298,6 +302,10 @@ class Walk:
         self.desc[fh] = ('flow', d, None)
       self.live[t['hid']] = obj
       self.desc[t['hid']] = ('mf', t, None)
+      if self.hook:
+        for fh in t['fhids']:
+          self.hook(self, fh)
+        self.hook(self, t["hid"])
       return info
     # node
     ch = [self.dev(c) for c in t['ch']]
@@ -321,6 +329,8 @@ class Walk:
       obj = dk.DeviceSet(t['id'], kids, sb)
     self.live[t['hid']] = obj
     self.desc[t['hid']] = ('node', t, None)
+    if self.hook:
+      self.hook(self, t["hid"])
     return {'k': 'node', 'id': t['hid'], 'own': own, 'refs': refs, 'ch': ch}
 
   def world(self, ncaller):
@@ -496,18 +506,41 @@ def target_box(walk, hid, n):
 
 
 OPS = (['cost']*10 + ['deriv']*12 + ['hess']*3 + ['bounds']*5 + ['readConstraints']*14 + ['callFun']*10 + ['callJac']*8 +
-       ['project']*6 + ['map']*4 + ['toDict']*5 + ['leafDevices']*4 + ['solve']*6 + ['step']*3 + ['cacheClear']*3)
+       ['project']*6 + ['map']*4 + ['toDict']*5 + ['leafDevices']*5 + ['solve']*6 + ['step']*3 + ['uproject']*3 + ['cacheClear']*3)
+EARLY_OPS = ['leafDevices', 'leafDevices', 'map', 'toDict', 'bounds', 'readConstraints', 'project']
+S_POS = {'cost': 0, 'deriv': 0, 'hess': 0, 'project': 0, 'map': 0, 'callFun': 0, 'callJac': 0, 'step': 1}   # position of the flow buffer
+MUTABLE_RESULT = ('deriv', 'hess', 'bounds', 'readConstraints', 'project', 'map', 'toDict', 'leafDevices', 'solve', 'step', 'uproject', 'callJac')
 
 
-def gen_ops(rng, tier, walk, world, n, count):
+def w_parents(dev, parent=None, out=None):
+  out = {} if out is None else out
+  out[dev['id']] = parent
+  if dev['k'] == 'mf':
+    for f in dev['flows']:
+      out[f] = dev['id']
+    w_parents(dev['w'], dev['id'], out)
+  elif dev['k'] == 'node':
+    for c in dev['ch']:
+      w_parents(c, dev['id'], out)
+  return out
+
+
+def buf_shape(op):
+  return 'flat' if op['o'] in ('callFun', 'callJac') else op.get('shape', 'mat')
+
+
+def gen_ops(rng, tier, walk, world, n, count, nearly=0):
+  """the history (`count` draws; a draw may add a child-then-parent pair) and `nearly` operations executed on a
+  device right after IT is constructed, i.e. before its parents exist."""
   ids = w_ids(world['root'])
+  parents = w_parents(world['root'])
   weights = {'node': 4, 'mf': 5, 'wrapped': 5, 'leaf': 3, 'flow': 1}
   pool = []
   for hid, role in ids:
     pool += [hid]*weights[role]
   pool += [ids[0][0]]*max(3, len(pool)//3)
   ops = []
-  ncell = walk.nctor
+  cell = [walk.nctor]
   def price(rows):
     q = rng.random()
     if q < 0.35:
@@ -515,17 +548,13 @@ def gen_ops(rng, tier, walk, world, n, count):
     if q < 0.7 or rows == 1:
       return [fs(dy(rng, -3, 3, 3)) for _ in range(n)]
     return [[fs(dy(rng, -3, 3, 3)) for _ in range(n)] for _ in range(rows)]
-  for _ in range(count):
-    o = rng.choice(OPS)
-    if o == 'cacheClear':
-      ops.append({'o': o}); continue
-    t = rng.choice(pool)
+  def mk_op(o, t, history):
     dev = w_find(world['root'], t)
     rows, lb, hb = target_box(walk, t, n)
     # evaluations get interior flows (on a bound some shipped cost curves raise 0**negative — C10's subject, and a
     # raise in the middle of a tree evaluation is a partial evaluation the model does not describe)
     flat = gen.gen_flow(rng, lb, hb, 'interior' if o in ('cost', 'deriv', 'hess', 'solve', 'step') else None)
-    if o in ('project', 'map', 'callFun', 'callJac') and rng.random() < 0.3:
+    if o in ('project', 'map', 'callFun', 'callJac', 'uproject') and rng.random() < 0.3:
       flat = [x + dy(rng, -2, 2) for x in flat]     # outside the box: projection / constraints still must not mutate
     S = [[fs(x) for x in flat[r*n:(r + 1)*n]] for r in range(rows)]
     op = {'o': o, 't': t, 'rows': rows}
@@ -537,14 +566,48 @@ def gen_ops(rng, tier, walk, world, n, count):
       nc = w_ncons(dev)
       op.update({'s': S, 'i': (rng.randrange(nc) if nc and rng.random() < 0.95 else nc)}); k = 1
     elif o == 'solve':
-      op.update({'p': price(rows), 's0': S if rng.random() < 0.5 else None, 'maxiter': rng.choice([5, 15, 40])}); k = 3
+      # None = the documented defaults; an explicit dict must not leak into later default calls
+      opts = None if rng.random() < 0.45 else {'maxiter': rng.choice([3, 15, 40]), 'ftol': rng.choice([1e-6, 1e-2, 1e-1])}
+      op.update({'p': price(rows), 's0': S if rng.random() < 0.5 else None, 'opts': opts}); k = 3
     elif o == 'step':
-      op.update({'p': price(rows), 's': S, 'stepsize': fs(dy(rng, 0, 2))}); k = 3
+      op.update({'p': price(rows), 's': S, 'stepsize': fs(dy(rng, 0, 2)), 'opts': None if rng.random() < 0.5 else {'maxiter': 20}}); k = 3
+    elif o == 'uproject':
+      x0 = gen.gen_flow(rng, lb, hb, 'interior')
+      opts = None if rng.random() < 0.5 else {'maxiter': rng.choice([1, 30]), 'ftol': rng.choice([1e-9, 1e-2])}
+      op.update({'s': S, 'x0': [fs(x) for x in x0], 'opts': opts}); k = 3
     else:
       k = 0
-    op['a'] = list(range(ncell, ncell + k)); ncell += k
-    ops.append(op)
-  return ops, ncell
+    if o in MUTABLE_RESULT and rng.random() < 0.3:
+      op['mut'] = True          # the caller scribbles over what it was handed back
+    a = list(range(cell[0], cell[0] + k)); cell[0] += k
+    # re-use of one caller-owned buffer: the caller writes this op's flow INTO the array an earlier call on the same
+    # device was given (in place) and passes that same ndarray again
+    if history and o in S_POS and rng.random() < 0.45:
+      for j in range(len(ops) - 1, -1, -1):
+        q = ops[j]
+        if q.get('t') == t and q['o'] in S_POS and buf_shape(q) == buf_shape(op):
+          root = q.get('buf', j)
+          op['buf'] = root
+          ops[root]['isbuf'] = True      # a buffer the caller keeps writing flows into is a float array
+          shared = ops[root]['a'][S_POS[ops[root]['o']]]
+          a = list(range(a[0], a[0] + k - 1)); cell[0] -= 1
+          a.insert(S_POS[o], shared)
+          break
+    op['a'] = a
+    return op
+  while len(ops) < count:
+    o = rng.choice(OPS)
+    if o == 'cacheClear':
+      ops.append({'o': o}); continue
+    t = rng.choice(pool)
+    ops.append(mk_op(o, t, True))
+    if parents.get(t) is not None and len(ops) < count and rng.random() < 0.25:      # child first, then its parent / adaptor
+      ops.append(mk_op(o, parents[t], True))
+  early = []
+  nonroot = [hid for hid, _ in ids[1:]]
+  for _ in range(nearly if nonroot else 0):
+    early.append(mk_op(rng.choice(EARLY_OPS), rng.choice(nonroot), False))
+  return ops, early, cell[0]
 
 
 def gen_case(rng, tier):
@@ -552,5 +615,5 @@ def gen_case(rng, tier):
   walk = Walk(T, n, False)
   world = walk.world(0)
   count = rng.randint(3, 12) if tier == 'quick' else rng.randint(5, 60)
-  ops, ncell = gen_ops(rng, tier, walk, world, n, count)
-  return {'tree': T, 'n': n, 'ops': ops, 'ncaller': ncell}
+  ops, early, ncell = gen_ops(rng, tier, walk, world, n, count, rng.choice([0, 0, 1, 2, 3]))
+  return {'tree': T, 'n': n, 'ops': ops, 'early': early, 'ncaller': ncell}
